@@ -95,7 +95,7 @@ end Propka.Dets
 
 namespace Propka.TopUp
 
-theorem lookupName_cons (k key : String × Int) (v : String) (rest : Names) :
+theorem lookupName_cons (k key : String × Int × String) (v : String) (rest : Names) :
     lookupName ((k, v) :: rest) key = if k = key then some v else lookupName rest key := rfl
 
 /-- **Completion**: every atom offered whose residue label the conformation lacks is copied, unless
@@ -103,7 +103,7 @@ theorem lookupName_cons (k key : String × Int) (v : String) (rest : Names) :
 theorem copy_complete (labels : List String) (names : Names) (others : List A) (a : A) (ha : a ∈ others)
     (hl : labels.contains a.label = false) :
     a ∈ copyLoop labels names others ∨
-    ∃ n, n ≠ a.resName ∧ (lookupName names (a.chain, a.num) = some n ∨ ∃ b ∈ others, b.chain = a.chain ∧ b.num = a.num ∧ b.resName = n) := by
+    ∃ n, n ≠ a.resName ∧ (lookupName names (a.chain, a.num, a.icode) = some n ∨ ∃ b ∈ others, b.chain = a.chain ∧ b.num = a.num ∧ b.icode = a.icode ∧ b.resName = n) := by
   induction others generalizing names with
   | nil => simp at ha
   | cons b rest ih =>
@@ -117,7 +117,7 @@ theorem copy_complete (labels : List String) (names : Names) (others : List A) (
       · exact Or.inr ⟨n, hn, Or.inl h⟩
       · exact Or.inr ⟨n, hn, Or.inr ⟨c, List.mem_cons_of_mem _ hc, h⟩⟩
     · rw [if_neg hb]
-      cases hn : lookupName names (b.chain, b.num) with
+      cases hn : lookupName names (b.chain, b.num, b.icode) with
       | some n =>
         simp only
         by_cases hne : n ≠ b.resName
@@ -139,14 +139,14 @@ theorem copy_complete (labels : List String) (names : Names) (others : List A) (
         simp only
         rcases List.mem_cons.mp ha with rfl | ha'
         · exact Or.inl (by simp)
-        · rcases ih (((b.chain, b.num), b.resName) :: names) ha' with h | ⟨m, hm, h | ⟨c, hc, h⟩⟩
+        · rcases ih (((b.chain, b.num, b.icode), b.resName) :: names) ha' with h | ⟨m, hm, h | ⟨c, hc, h⟩⟩
           · exact Or.inl (List.mem_cons_of_mem _ h)
           · rw [lookupName_cons] at h
-            by_cases hk : (b.chain, b.num) = (a.chain, a.num)
+            by_cases hk : (b.chain, b.num, b.icode) = (a.chain, a.num, a.icode)
             · rw [if_pos hk] at h
               simp only [Option.some.injEq] at h
               simp only [Prod.mk.injEq] at hk
-              exact Or.inr ⟨m, hm, Or.inr ⟨b, by simp, hk.1, hk.2, h⟩⟩
+              exact Or.inr ⟨m, hm, Or.inr ⟨b, by simp, hk.1, hk.2.1, hk.2.2, h⟩⟩
             · rw [if_neg hk] at h; exact Or.inr ⟨m, hm, Or.inl h⟩
           · exact Or.inr ⟨m, hm, Or.inr ⟨c, List.mem_cons_of_mem _ hc, h⟩⟩
 
@@ -154,11 +154,11 @@ theorem copy_complete (labels : List String) (names : Names) (others : List A) (
     was bound to — by the conformation's own atoms, or by the first atom copied there. -/
 theorem copy_no_merge (labels : List String) (names : Names) (others : List A) (a : A)
     (ha : a ∈ copyLoop labels names others) :
-    (∀ n, lookupName names (a.chain, a.num) = some n → n = a.resName) ∧
-    (∀ b ∈ copyLoop labels names others, b.chain = a.chain → b.num = a.num → b.resName = a.resName) := by
+    (∀ n, lookupName names (a.chain, a.num, a.icode) = some n → n = a.resName) ∧
+    (∀ b ∈ copyLoop labels names others, b.chain = a.chain → b.num = a.num → b.icode = a.icode → b.resName = a.resName) := by
   suffices H : ∀ names others, (∀ b ∈ copyLoop labels names others,
-      (∀ n, lookupName names (b.chain, b.num) = some n → n = b.resName) ∧
-      (∀ c ∈ copyLoop labels names others, c.chain = b.chain → c.num = b.num → c.resName = b.resName)) from H names others a ha
+      (∀ n, lookupName names (b.chain, b.num, b.icode) = some n → n = b.resName) ∧
+      (∀ c ∈ copyLoop labels names others, c.chain = b.chain → c.num = b.num → c.icode = b.icode → c.resName = b.resName)) from H names others a ha
   intro names others
   induction others generalizing names with
   | nil => intro b hb; simp [copyLoop] at hb
@@ -168,37 +168,39 @@ theorem copy_no_merge (labels : List String) (names : Names) (others : List A) (
     by_cases hx : labels.contains x.label = true
     · rw [if_pos hx] at hb ⊢; exact ih names b hb
     · rw [if_neg hx] at hb ⊢
-      cases hn : lookupName names (x.chain, x.num) with
+      cases hn : lookupName names (x.chain, x.num, x.icode) with
       | some n =>
         simp only [hn] at hb ⊢
         by_cases hne : n ≠ x.resName
         · rw [if_pos hne] at hb ⊢; exact ih names b hb
         · rw [if_neg hne] at hb ⊢
           have hnx : n = x.resName := by simpa using hne
-          have key : ∀ c ∈ x :: copyLoop labels names rest, ∀ m, lookupName names (c.chain, c.num) = some m → m = c.resName := by
+          have key : ∀ c ∈ x :: copyLoop labels names rest, ∀ m, lookupName names (c.chain, c.num, c.icode) = some m → m = c.resName := by
             intro c hc m hm
             rcases List.mem_cons.mp hc with rfl | hc
             · rw [hn] at hm; cases hm; exact hnx
             · exact (ih names c hc).1 m hm
           refine ⟨key b hb, ?_⟩
-          intro c hc h1 h2
+          intro c hc h1 h2 h3
           rcases List.mem_cons.mp hb with rfl | hb' <;> rcases List.mem_cons.mp hc with rfl | hc'
           · rfl
-          · have := key c hc n (by rw [h1, h2]; exact hn); rw [← this, hnx]
-          · have := key b hb n (by rw [← h1, ← h2]; exact hn); rw [← this, hnx]
-          · exact (ih names b hb').2 c hc' h1 h2
+          · have := key c hc n (by rw [h1, h2, h3]; exact hn); rw [← this, hnx]
+          · have := key b hb n (by rw [← h1, ← h2, ← h3]; exact hn); rw [← this, hnx]
+          · exact (ih names b hb').2 c hc' h1 h2 h3
       | none =>
         simp only [hn] at hb ⊢
-        have ih' := ih (((x.chain, x.num), x.resName) :: names)
-        have key : ∀ c ∈ copyLoop labels (((x.chain, x.num), x.resName) :: names) rest, c.chain = x.chain → c.num = x.num → c.resName = x.resName := by
-          intro c hc h1 h2
-          have := (ih' c hc).1 x.resName (by rw [lookupName_cons, h1, h2]; simp)
+        have ih' := ih (((x.chain, x.num, x.icode), x.resName) :: names)
+        have key : ∀ c ∈ copyLoop labels (((x.chain, x.num, x.icode), x.resName) :: names) rest,
+            c.chain = x.chain → c.num = x.num → c.icode = x.icode → c.resName = x.resName := by
+          intro c hc h1 h2 h3
+          have := (ih' c hc).1 x.resName (by rw [lookupName_cons, h1, h2, h3]; simp)
           exact this.symm
-        have lk : ∀ c ∈ copyLoop labels (((x.chain, x.num), x.resName) :: names) rest, ∀ m, lookupName names (c.chain, c.num) = some m → m = c.resName := by
+        have lk : ∀ c ∈ copyLoop labels (((x.chain, x.num, x.icode), x.resName) :: names) rest, ∀ m,
+            lookupName names (c.chain, c.num, c.icode) = some m → m = c.resName := by
           intro c hc m hm
           apply (ih' c hc).1 m
           rw [lookupName_cons]
-          by_cases hk : (x.chain, x.num) = (c.chain, c.num)
+          by_cases hk : (x.chain, x.num, x.icode) = (c.chain, c.num, c.icode)
           · rw [← hk, hn] at hm; cases hm
           · rw [if_neg hk]; exact hm
         constructor
@@ -206,12 +208,12 @@ theorem copy_no_merge (labels : List String) (names : Names) (others : List A) (
           rcases List.mem_cons.mp hb with rfl | hb'
           · rw [hn] at hm; cases hm
           · exact lk b hb' m hm
-        · intro c hc h1 h2
+        · intro c hc h1 h2 h3
           rcases List.mem_cons.mp hb with rfl | hb' <;> rcases List.mem_cons.mp hc with rfl | hc'
           · rfl
-          · exact key c hc' h1 h2
-          · exact (key b hb' h1.symm h2.symm).symm
-          · exact (ih' b hb').2 c hc' h1 h2
+          · exact key c hc' h1 h2 h3
+          · exact (key b hb' h1.symm h2.symm h3.symm).symm
+          · exact (ih' b hb').2 c hc' h1 h2 h3
 
 /-- the conformation's own atoms are all kept, in order, in front of the copies -/
 theorem own_atoms_kept (mine others : List A) : mine <+: topUpFrom mine others := by
@@ -219,8 +221,8 @@ theorem own_atoms_kept (mine others : List A) : mine <+: topUpFrom mine others :
 
 /-! ### Non-vacuity: ASP in one conformation, VAL at the same position in the other -/
 example :
-    let asp : List A := [⟨"CG   50 A", "A", 50, "ASP"⟩, ⟨"CA   50 A", "A", 50, "ASP"⟩]
-    let val : List A := [⟨"CG1  50 A", "A", 50, "VAL"⟩, ⟨"CA   50 A", "A", 50, "VAL"⟩, ⟨"N    51 A", "A", 51, "GLY"⟩]
-    topUpFrom asp (refAtoms [asp, val]) = asp ++ [⟨"N    51 A", "A", 51, "GLY"⟩] := by decide
+    let asp : List A := [⟨"CG   50 A", "A", 50, " ", "ASP"⟩, ⟨"CA   50 A", "A", 50, " ", "ASP"⟩]
+    let val : List A := [⟨"CG1  50 A", "A", 50, " ", "VAL"⟩, ⟨"CA   50 A", "A", 50, " ", "VAL"⟩, ⟨"N    51 A", "A", 51, " ", "GLY"⟩]
+    topUpFrom asp (refAtoms [asp, val]) = asp ++ [⟨"N    51 A", "A", 51, " ", "GLY"⟩] := by decide
 
 end Propka.TopUp
